@@ -4,6 +4,8 @@ import (
 	"math/big"
 	"time"
 
+	abci "github.com/tendermint/tendermint/abci/types"
+
 	sdk "github.com/pokt-network/posmint/types"
 	"github.com/pokt-network/posmint/x/pos/types"
 	zz "github.com/pokt-network/posmint/zzverif"
@@ -287,4 +289,82 @@ func vExactBurnAmount(power int64, frac sdk.Dec, stake *big.Int) *big.Int {
 		return new(big.Int).Set(stake)
 	}
 	return a
+}
+
+// VerifC07_CustomBurns: one to three custom burns queued for the same validator during a block (BurnValidator) are
+// applied together at the next BeginBlock: exactly min(trunc(p * 10^6 * (f1+f2+f3)), stake) for its current power p is
+// burned from stake, pool and supply, the queue is emptied, and a second BeginBlock burns nothing more.
+func VerifC07_CustomBurns() {
+	e := VNewEnv(2)
+	e.Fund(e.Addrs[1], sdk.NewInt(50000000))
+	e.Stake(1, sdk.NewInt(20000000))
+	stake := VSymInt("stake0", 1000000, 1<<50)
+	e.Fund(e.Addrs[0], stake)
+	e.Stake(0, stake)
+	e.K.SetPreviousProposer(e.Ctx, e.Addrs[1])
+	n := 1 + zz.Choice("burns", 3)
+	sum := sdk.ZeroDec()
+	fr := []sdk.Dec{sdk.NewDecWithPrec(1, 2), sdk.NewDecWithPrec(25, 2), sdk.NewDecWithPrec(6, 1)}
+	for j := 0; j < n; j++ {
+		f := fr[zz.Choice("severity", 3)]
+		e.K.BurnValidator(e.Ctx, e.Addrs[0], f)
+		sum = sum.Add(f)
+	}
+	v, _ := e.Val(0)
+	power := v.ConsensusPower()
+	pre := e.snap()
+	e.Advance(time.Second, 1)
+	BeginBlocker(e.Ctx, abci.RequestBeginBlock{Header: abci.Header{ProposerAddress: e.Addrs[1]}}, e.K)
+	post := e.snap()
+	burned := new(big.Int).Sub(pre.supply.BigInt(), post.supply.BigInt())
+	want := vExactBurnAmount(power, sum, pre.stake[0].BigInt())
+	min := sdk.NewInt(e.K.MinimumStake(e.Ctx))
+	rem := new(big.Int).Sub(pre.stake[0].BigInt(), want)
+	if rem.Cmp(min.BigInt()) < 0 {
+		zz.Assert("C07.customburn.below-minimum-burns-whole-stake", burned.Cmp(pre.stake[0].BigInt()) == 0 && post.status[0] == sdk.Unstaked)
+	} else {
+		zz.Assert("C07.customburn.sum-of-queued-fractions", burned.Cmp(want) == 0 && new(big.Int).Sub(pre.stake[0].BigInt(), post.stake[0].BigInt()).Cmp(want) == 0)
+	}
+	zz.Assert("C07.customburn.pool-and-supply-move-together", pre.pool.Sub(post.pool).BigInt().Cmp(burned) == 0 && post.stake[1].Equal(pre.stake[1]) && post.bal[0].Equal(pre.bal[0]))
+	zz.Assert("C07.customburn.queue-emptied", len(vPrefixKeys(e, types.BurnValidatorKey)) == 0)
+	e.Advance(time.Second, 1)
+	BeginBlocker(e.Ctx, abci.RequestBeginBlock{Header: abci.Header{ProposerAddress: e.Addrs[1]}}, e.K)
+	again := e.snap()
+	zz.Assert("C07.customburn.applied-once", again.supply.Equal(post.supply) && again.stake[0].Equal(post.stake[0]))
+	e.invariants("C07.customburn")
+	zz.Reach("C07.customburn.end")
+}
+
+// VerifC08_LargeWindowClear: with a large (non-default) SignedBlocksWindow, jailing for downtime clears EVERY slot of
+// the window - slots at small, byte-boundary (255/256, 65535/65536) and last indices alike - so that the counter (0)
+// equals the window afterwards.
+func VerifC08_LargeWindowClear() {
+	e := VNewEnv(2)
+	w := []int64{100, 300, 70000}[zz.Choice("window", 3)]
+	vSetWindowParams(e, w, sdk.NewDecWithPrec(5, 1))
+	e.Fund(e.Addrs[0], sdk.NewInt(50000000))
+	e.Stake(0, sdk.NewInt(10000000))
+	idxs := []int64{0, 1, 44, 45, 99, 255, 256, 257, 299, 65535, 65536, 69999}
+	var used []int64
+	for _, ix := range idxs {
+		if ix < w {
+			e.K.SetMissedBlockArray(e.Ctx, e.Addrs[0], ix, true)
+			used = append(used, ix)
+		}
+	}
+	e.K.SetValidatorSigningInfo(e.Ctx, e.Addrs[0], types.ValidatorSigningInfo{Address: e.Addrs[0], StartHeight: 0, IndexOffset: 7, JailedUntil: time.Unix(0, 0), MissedBlocksCounter: w}) // over the threshold
+	e.Ctx = e.Ctx.WithBlockHeight(w + 10)
+	e.K.handleValidatorSignature(e.Ctx, []byte(e.Addrs[0]), 10, false)
+	v, _ := e.Val(0)
+	zz.Assert("C08.largewindow.jailed", v.Jailed)
+	info, _ := e.K.GetValidatorSigningInfo(e.Ctx, e.Addrs[0])
+	left := 0
+	for _, ix := range idxs {
+		if ix < w && e.K.getMissedBlockArray(e.Ctx, e.Addrs[0], ix) {
+			left++
+		}
+	}
+	zz.Assert("C08.largewindow.jailing-clears-every-slot", left == 0 && info.MissedBlocksCounter == 0 && len(vPrefixKeys(e, types.GetValMissedBlockPrefixKey(e.Addrs[0]))) == 0)
+	_ = used
+	zz.Reach("C08.largewindow.end")
 }
